@@ -442,8 +442,14 @@ def run_shard(ctx):
         # (1) text mutation
         text, kinds = mutate_string(rng, p.text)
         ctx.res.evaluations += 1
-        cls, e = run_entry(lambda: ZConfig.loadConfigFile(
-            p.schema, io.StringIO(text)))
+        import zcverif_dt.fam as _fam
+        _fam.CURRENT[0] = ("text", p.schema, text)
+        try:
+            cls, e = run_entry(lambda: ZConfig.loadConfigFile(
+                p.schema, io.StringIO(text)))
+        finally:
+            _fam.CURRENT[0] = None
+            _fam.same_load_mismatch(False)
         report(ctx.res, "text", kinds, {"model": p.model, "text": text,
                                         "family": "text"}, cls, e)
         # (2) override mutation
